@@ -286,11 +286,31 @@ class Ctx(object):
         return True
 
     # ------------------------------------------------------------------ run the model inside Coq
-    def coq_filter(self, requires, check_fn, cases, shard=400, timeout=600, prelude=''):
+    def ensure_built(self, requires, timeout=1800):
+        """make the .vo of every module a generated cases file imports (they need not be in the Props cone)."""
+        by_base = {os.path.basename(f)[:-2]: f for f in all_v_files()}
+        targets = [by_base[r][:-2] + '.vo' for r in requires if r in by_base]
+        missing = [r for r in requires if r not in by_base]
+        if missing:
+            raise RuntimeError('modules not found in coq/: %r' % missing)
+        key = tuple(sorted(targets))
+        if getattr(self, '_built', None) is None:
+            self._built = set()
+        if key in self._built:
+            return
+        with BuildLock():
+            ensure_makefile()
+            rc, out = sh(['timeout', str(timeout), 'make', '-C', COQ, '-j%d' % JOBS] + targets, timeout=timeout + 30)
+        if rc != 0:
+            raise RuntimeError('cannot build modules required by the correspondence: ' + out[-1500:])
+        self._built.add(key)
+
+    def coq_filter(self, requires, check_fn, cases, shard=400, timeout=3000, prelude=''):
         """cases: list of Gallina terms c such that `check_fn c : bool`.  Returns indices where the
         model (evaluated by vm_compute inside coqc) answers false.  Sharded over JOBS processes."""
         if not cases:
             return []
+        self.ensure_built(requires)
         self.trust('correspondence harness: generated cases.v evaluated with vm_compute by coqc')
         shards = [cases[i:i + shard] for i in range(0, len(cases), shard)]
         files = []
@@ -321,6 +341,11 @@ class Ctx(object):
                 running.append((i, pr))
             i, pr = running.pop(0)
             out, _ = pr.communicate()
+            if pr.returncode != 0 and 'Error' not in out:
+                # killed without a Coq error (overloaded machine / OOM): retry this shard once, alone
+                rc2, out = sh('ulimit -s unlimited 2>/dev/null; exec timeout %d coqc -Q %s Verif %s' % (timeout, COQ, files[i]),
+                              cwd=self.scratch)
+                pr.returncode = rc2
             if pr.returncode != 0:
                 raise RuntimeError('coqc failed on generated cases (harness bug or model does not build):\n' + out[-2000:])
             m = re.search(r'=\s*\[([^\]]*)\]\s*:\s*list nat', out.replace('\n', ' '))
@@ -332,6 +357,7 @@ class Ctx(object):
 
     def coq_eval(self, requires, exprs, timeout=300, prelude=''):
         """Evaluate Gallina expressions; returns the raw printed results (for replays/debugging)."""
+        self.ensure_built(requires)
         p = os.path.join(self.scratch, 'eval_%s_%d.v' % (self.pid, random.randrange(10**9)))
         with open(p, 'w') as f:
             f.write('From Coq Require Import ZArith List Bool String Ascii.\n')
@@ -438,8 +464,9 @@ class Ctx(object):
         cov.update(self.extra)
         ev = {'property_id': self.pid, 'tier': self.tier, 'seed': self.seed, 'level': 'proof', 'coverage': cov,
               'assumptions': self.assumptions, 'wall_s': round(time.time() - self.t0, 2), 'violations': n_viol}
-        os.makedirs(os.path.join(VERIF, 'evidence'), exist_ok=True)
-        with open(os.path.join(VERIF, 'evidence', '%s.json' % self.pid), 'w') as fh:
+        evdir = os.environ.get('VERIF_EVIDENCE_DIR') or os.path.join(VERIF, 'evidence')
+        os.makedirs(evdir, exist_ok=True)
+        with open(os.path.join(evdir, '%s.json' % self.pid), 'w') as fh:
             json.dump(ev, fh, indent=1, default=str)
         for l in lines:
             print(l)
